@@ -41,6 +41,10 @@ class HarnessError(Exception):
     pass
 
 
+class CaseTimeGuard(BaseException):
+    """Raised by the per-case wall-clock guard (BaseException so that no `except Exception` swallows it)."""
+
+
 class Part:
     def __init__(self, name, fn, quick, thorough, shard=True):
         self.name, self.fn, self.quick, self.thorough, self.shard = name, fn, quick, thorough, shard
@@ -124,6 +128,26 @@ class Ctx:
     # ------------------------------------------------------------------ core evaluation of one case
     def _eval(self, name, body, case):
         """Returns None if passed/skipped, or Fail."""
+        import signal
+        guard = int(os.environ.get("VERIF_CASE_GUARD_S", "900" if self.tier == "quick" else "2400"))
+
+        def _on_alarm(signum, frame):
+            raise CaseTimeGuard()
+        prev = signal.signal(signal.SIGALRM, _on_alarm)
+        prev_timer = signal.setitimer(signal.ITIMER_REAL, guard)
+        try:
+            return self._eval_inner(name, body, case)
+        except CaseTimeGuard:
+            # a single case ran longer than the (very generous) guard: inconclusive, never a violation; checks whose
+            # property includes termination (C10) install their own tighter watchdog and raise Fail themselves
+            self.rec.count(f"{name}:case_time_guard_hit")
+            self.inconclusive = True
+            return None
+        finally:
+            signal.setitimer(signal.ITIMER_REAL, 0)
+            signal.signal(signal.SIGALRM, prev)
+
+    def _eval_inner(self, name, body, case):
         try:
             out = body(case)
         except Fail as f:
@@ -131,7 +155,7 @@ class Ctx:
         except Skip as s:
             self.rec.count(f"{name}:rejected_by_contract:{s}")
             return None
-        except (KeyboardInterrupt, SystemExit, HarnessError):
+        except (KeyboardInterrupt, SystemExit, HarnessError, CaseTimeGuard):
             raise
         except Exception as e:  # noqa
             import hypothesis.errors as he
